@@ -40,6 +40,8 @@ structure Fn where
   dflt : List Nat
   inits : List Nat
   nt : Nat
+  /-- a forward declaration (carrying the attributes) precedes the definition -/
+  fd : Bool
 
 structure Init where
   uses : List Nat
@@ -121,7 +123,8 @@ def parseHelper (s : String) : Option Fn :=
   | [name, uses, calls, statics] => do
     let opts := optsOf parts 4
     pure { name, uses := ← useList? uses, calls := ← natList? calls, statics := ← natList? statics,
-           stage := none, threads := none, dflt := ← optList? opts "d", inits := [], nt := 0 }
+           stage := none, threads := none, dflt := ← optList? opts "d", inits := [], nt := 0,
+           fd := opts.contains "fd" }
   | _ => none
 
 def parseEntry (s : String) : Option Fn :=
@@ -134,7 +137,7 @@ def parseEntry (s : String) : Option Fn :=
       | none => some 0
     pure { name, uses := ← useList? uses, calls := ← natList? calls, statics := ← natList? statics,
            stage := some (← parseStage stage), threads := ← parseThreads threads, dflt := [],
-           inits := ← optList? (opts.filter (fun o => !o.startsWith "nt")) "i", nt }
+           inits := ← optList? (opts.filter (fun o => !o.startsWith "nt")) "i", nt, fd := opts.contains "fd" }
   | _ => none
 
 def parsePipe (s : String) : Option Pipe :=
@@ -345,10 +348,13 @@ def buildOne (msl : Bool) (p : Params) (pg : Prog) (pipe : Option PipeDef) : Str
   | some req =>
     let usedAt := fun i => usedBy req (stageRecs.map (·.entry)) i
     let slots := assign p dflt (ds.map MDecl.toSlot)
-    let metaR := if msl then mslMeta p dflt usedAt ds else hlslMeta p dflt ds
+    let metaR := if msl then mslExport p dflt usedAt pipe.isSome ds else hlslMeta p dflt ds
     match slots, metaR with
     | .error e, _ => "panic:" ++ e
-    | _, .error e => if e == "UnsupportedBindGroupIndex" then "err:UnsupportedBindGroupIndex" else "panic:" ++ e
+    | _, .error e =>
+      -- the clean refusals of the exporters (`GenerateError`); everything else is a panic / assert of the Rust code
+      if e == "UnsupportedBindGroupIndex" || e == "UnboundGlobal" || e == "UnsupportedObjectType" then "err:" ++ e
+      else "panic:" ++ e
     | .ok res, .ok groups =>
       let annR := annots (if msl then mslAnnot else hlslAnnot p) ds res.bindings
       match annR with
@@ -378,12 +384,27 @@ def buildOne (msl : Bool) (p : Params) (pg : Prog) (pipe : Option PipeDef) : Str
           ",".intercalate (reported.map fun s => s.stage.name ++ ":" ++ s.entryPoint ++ ":" ++ showThreads s.threadGroupSize) ++
           "] F[" ++ ",".intercalate (emitted.map showEm) ++ "]"
 
-/-- the front end: resource declarations first (they precede every Pipeline block), then the pipelines -/
+/-- the file in source order (harness/src/c05/case.rs `render`): forward declarations of entry points (with their
+    attributes), helpers, then the entry points and the `Pipeline` blocks — all entry points first, or (layout 1) each
+    pipeline right after the entry points it is the first to mention, the remaining entry points at the end -/
+def itemsOf (pg : Prog) (fnOf : Fn → FnSrc) (srcs : List PipeSrc) : List Item :=
+  let ent := fun k => match pg.entries[k]? with | some f => [Item.fn (fnOf f)] | none => []
+  let n := pg.entries.length
+  (pg.entries.filter (·.fd)).map (fun f => Item.fn (fnOf f)) ++ pg.helpers.map (fun f => Item.fn (fnOf f)) ++
+  if !pg.layout1 then (List.range n).flatMap ent ++ srcs.map Item.pipe else
+  let step := fun (acc : List Nat × List Item) (x : Pipe × PipeSrc) =>
+    let fresh := x.1.stages.foldl (fun l k => if acc.1.contains k || l.contains k then l else l ++ [k]) []
+    (acc.1 ++ fresh, acc.2 ++ fresh.flatMap ent ++ [Item.pipe x.2])
+  let (done, items) := (pg.pipes.zip srcs).foldl step ([], [])
+  items ++ ((List.range n).filter (fun k => !done.contains k)).flatMap ent
+
+/-- the front end: resource declarations first (they precede every function and `Pipeline` block), then the functions
+    and pipelines in file order -/
 def frontEnd (pg : Prog) : Except FrontErr (List PipeDef) :=
   if pg.rs.any (fun r => r.ss && r.hasIndex && !r.cb) then .error .StaticSamplerUnexpectedBindingIndex else
+  let fnOf : Fn → FnSrc := fun f => { name := f.name, attrs := attrsOf f, hasBody := true, isTemplate := false }
   -- the user's functions, numbered like `funcs` in `buildOne`, then the intrinsic functions of the registry
-  let fns : List FnSrc := (pg.helpers ++ pg.entries).map (fun f =>
-    { name := f.name, attrs := attrsOf f, hasBody := true, isTemplate := false }) ++
+  let fns : List FnSrc := (pg.helpers ++ pg.entries).map fnOf ++
     intrinsicFunctionNames.map (fun n => { name := n, attrs := [], hasBody := false, isTemplate := false })
   let srcs : List PipeSrc := pg.pipes.map fun pp =>
     { name := pp.name,
@@ -392,7 +413,7 @@ def frontEnd (pg : Prog) : Except FrontErr (List PipeDef) :=
         | none => none),
       dflt := pp.dflt, graphicsProps := pp.gstate }
   -- `addStage` numbers the functions over helpers ++ entries, like `funcs` in `buildOne`
-  parsePipelines fns [] srcs
+  parseFile fns [] (itemsOf pg fnOf srcs)
 
 def handle (op : String) (args : List String) : String :=
   match op, args with
